@@ -1,4 +1,5 @@
 import PGM.Proofs.GbpFixedFlat
+import PGM.Proofs.GbpFixedShape
 /-!
 # C16F — generalised (region-graph) propagation at a fixed point
 
@@ -15,8 +16,9 @@ well-formed table inside its child region (an invariant of the sweeps, `hyp_swee
 message order: `N[p,r] ⊆ B[p]`, `D[p,r] ⊆ B[r]`, messages of `B[r]` live inside `r`, `D[p,r]` precedes `(p,r)` in
 the message order (so the Gauss–Seidel denominator reads written keys), and the balance
 `B[p] + D[p,r] + {(p,r)} = B[r] + N[p,r]` — "N and D are exactly the message sets of numerator and denominator".
-`Shape (buildOn regions false true)` is evaluated by `decide` on the graphs below (two cliques; a three-clique chain
-with nested separators, where `N`, `D` are non-empty); it is **not** proved here for every region list.
+`Shape (buildOn regions false true)` is **proved for every duplicate-free list of duplicate-free regions**
+(`shape_buildOn`; in particular for what `RG.closure` produces), so on the graphs of `build_graph` (non-convex,
+minimal) the theorems need no decidable hypothesis (`*_buildOn` forms); `decide` confirms it on the graphs below.
 A fixed point is taken cell-wise (`SemFixed`: the sweep reproduces every message at every valid assignment);
 `gbpSweep g pot m = m` implies it (`*_of_eq` forms).
 
@@ -43,8 +45,8 @@ on the maximal cliques only, `g = buildOn (closure cliques) false true`, `Hyp`, 
 are `1` on cliques and `−multiplicity` on separators); (b) consistency along *edges* (item 1) must be extended to every
 pair clique ⊇ separator — in the pruned (`minimal`) graph this needs the common-ancestor classes of `minEdges`
 (`DS.find` = connected components), which is not available; (c) a leaf-peeling induction over the RIP order with
-`sumOver` over unions of attribute lists (the two-clique proof is its base step).  Also open: `Shape (buildOn regions
-false true)` for every duplicate-free list of duplicate-free regions (needs completeness of `reach` for descendants).
+`sumOver` over unions of attribute lists (the two-clique proof is its base step).  Also open: the saturated branch
+(`minimal = false`), whose `N`/`D`/`B` sets are defined differently (`msgSetsSat`).
 -/
 namespace PGM.C16F
 open PGM PGM.JT PGM.RG PGM.Convex PGM.Sem PGM.GbpFixed
@@ -60,6 +62,25 @@ theorem hyp_buildOn (dom : Dom) (regions : List Region) (minimal : Bool) (pot : 
     Hyp dom (buildOn regions false minimal) pot m := by
   have hb := buildOn_ok regions false minimal hnd
   exact ⟨⟨hd, hreg, hpot, hb.children_sub, hb.parents_dual⟩, hpos, hs, hm⟩
+
+/-- **`Shape` holds on every minimal non-convex region graph**: any duplicate-free list of duplicate-free regions
+(closedness under intersection is not needed) -/
+theorem shape_buildOn (regions : List Region) (hnd : regions.Nodup) (hreg : ∀ r ∈ regions, r.Nodup) :
+    Shape (buildOn regions false true) :=
+  GbpFixed.shape_buildOn regions hnd hreg
+
+/-- hence `Hyp` on `buildOn regions false true` from hypotheses on the inputs only -/
+theorem hyp_buildOn_min (dom : Dom) (regions : List Region) (pots : CliqueVec ℝ) (m : Msgs ℝ)
+    (hd : dom.WF) (hpos : ∀ p ∈ dom, 0 < p.2) (hnd : regions.Nodup) (hreg : ∀ r ∈ regions, RegOK dom r)
+    (hpot : ∀ r ∈ regions, On dom r (pots.get r))
+    (hm : ∀ e ∈ (buildOn regions false true).messageOrder, Convex.Sub dom e.2 (m.get e)) :
+    Hyp dom (buildOn regions false true) (potOf dom (buildOn regions false true) pots) m := by
+  apply hyp_buildOn dom regions true _ m hd hpos hnd hreg ?_ (shape_buildOn regions hnd (fun r hr => (hreg r hr).1)) hm
+  intro r hr
+  unfold potOf
+  rw [if_pos (List.contains_iff_mem.mpr (by
+    rw [Oracle.buildOn_cliques]; exact (Oracle.mem_sortByLen regions r).mpr hr))]
+  exact hpot r hr
 
 theorem hyp_sweep {dom : Dom} {g : RG.Graph} {pot : Region → Factor ℝ} {m : Msgs ℝ} (h : Hyp dom g pot m)
     (n : Nat) : Hyp dom g pot (iterate (gbpSweep g pot) n m) := h.iterate n
@@ -116,6 +137,23 @@ theorem gbp_fixed_point_consistent_of_eq (dom : Dom) (g : RG.Graph) (pots : Cliq
       (mu.get e.2).sem σ = sumOver dom (e.1.filter (fun a => !e.2.contains a)) σ (mu.get e.1).sem) ∧
     ((mu.get e.1).projectSum e.2).datavector = (mu.get e.2).datavector :=
   (gbp_fixed_point_consistent dom g pots T m h (semFixed_of_eq dom g _ m hfix) hT hcl e he hzero).2.2
+
+/-- **item 1 on the graphs of `build_graph`** (non-convex, minimal), hypotheses on the inputs only: duplicate-free
+regions over `dom`, potentials laid out on their regions, a message state of tables inside the child regions that a
+sweep reproduces cell-wise -/
+theorem gbp_fixed_point_consistent_buildOn (dom : Dom) (regions : List Region) (pots : CliqueVec ℝ) (T : ℝ)
+    (m : Msgs ℝ) (hd : dom.WF) (hpos : ∀ p ∈ dom, 0 < p.2) (hnd : regions.Nodup)
+    (hreg : ∀ r ∈ regions, RegOK dom r) (hpot : ∀ r ∈ regions, On dom r (pots.get r))
+    (hm : ∀ e ∈ (buildOn regions false true).messageOrder, Convex.Sub dom e.2 (m.get e))
+    (hfix : SemFixed dom (buildOn regions false true) (potOf dom (buildOn regions false true) pots) m)
+    (hT : 0 < T) (e : Edge) (he : e ∈ (buildOn regions false true).messageOrder)
+    (hzero : ∀ σ, dom.Valid σ → (pots.get e.2).sem σ = 0) :
+    let mu := (RG.gbp dom (buildOn regions false true) pots T 0 m).1
+    (∀ σ, dom.Valid σ →
+      (mu.get e.2).sem σ = sumOver dom (e.1.filter (fun a => !e.2.contains a)) σ (mu.get e.1).sem) ∧
+    ((mu.get e.1).projectSum e.2).datavector = (mu.get e.2).datavector :=
+  (gbp_fixed_point_consistent dom _ pots T m (hyp_buildOn_min dom regions pots m hd hpos hnd hreg hpot hm) hfix hT
+    (fun r hr => by rw [Oracle.buildOn_cliques]; exact (Oracle.mem_sortByLen regions r).mpr hr) e he hzero).2.2
 
 /-- the fixed-point equation behind it: `m[p,r] = log Σ_{x_{p∖r}} exp(θ_p + Σ_{N[p,r]} m) − Σ_{D[p,r]} m − c` -/
 theorem gbp_fixed_point_equation (dom : Dom) (g : RG.Graph) (pot : Region → Factor ℝ) (m : Msgs ℝ)
@@ -339,6 +377,15 @@ example (T : ℝ) (hT : 0 < T) : ∃ m : Msgs ℝ,
   ⟨_, (gbp_fixed_point_consistent exDom exG exPots T _ (ex_fixed _ exPots_on).1 (ex_fixed _ exPots_on).2 hT
     exG_cliques (["A", "B"], ["B"]) (by decide) (fun σ _ => by
       rw [exPots_get ["B"] (by decide)]; exact zeros_sem_real _ σ)).2.2.2⟩
+
+/-- `gbp_fixed_point_consistent_buildOn` (no decidable hypothesis) on `A-B / B-C / B` -/
+example (T : ℝ) (hT : 0 < T) : ∃ m : Msgs ℝ,
+    (((RG.gbp exDom exG exPots T 0 m).1.get ["B", "C"]).projectSum ["B"]).datavector
+      = ((RG.gbp exDom exG exPots T 0 m).1.get ["B"]).datavector :=
+  ⟨_, (gbp_fixed_point_consistent_buildOn exDom [["A", "B"], ["B", "C"], ["B"]] exPots T _ exDom_wf exDom_pos
+    (by decide) exG_regs (fun r hr => by rw [exPots_get r hr]; exact zeros_on (exG_regs r hr))
+    (ex_fixed _ exPots_on).1.msgs_sub (ex_fixed _ exPots_on).2 hT (["B", "C"], ["B"]) (by decide) (fun σ _ => by
+      rw [exPots_get ["B"] (by decide)]; exact zeros_sem_real _ σ)).2⟩
 
 /-- `gbp_fixed_point_exact_two_cliques`: all hypotheses hold on `A-B / B-C / B` (`c1 = AB`, `c2 = BC`, `s = B`) -/
 example (T : ℝ) (hT : 0 < T) (σ : Attr → Nat) (hσ : exDom.Valid σ) : ∃ m : Msgs ℝ,
